@@ -91,6 +91,33 @@ class C06(Prop):
                 return dict(string=s, quoted=text, flags="eD", error=f"{type(e).__name__}: {e}"), n
             if buf.getvalue() != s + "\n":
                 return dict(string=s, quoted=text, flags="eD", printed=buf.getvalue()[:80], expected=s + "\n"), n
+        # the quoting element under every context the output flags can produce (P turns vyxal_lists off), and the
+        # quoted text evaluated from inside a running program (q then Ė) with compression off
+        for s in ["abc", "", "a`b", "a\\b", 'say "hi"', "λλ", "line\nbreak"]:
+            for vl in (True, False):
+                n += 1
+                c3 = Context()
+                c3.vyxal_lists = vl
+                text = el.quotify(s, c3)
+                ns, c2, stack = rc.fresh_ns(())
+                try:
+                    err, out = rc.run_code(transpile(text, dict_compress=False), ns, 3)
+                except Exception as e:  # noqa
+                    err = f"{type(e).__name__}: {e}"
+                if err is not None or ns["stack"] != [s]:
+                    return dict(string=s, quoted=text, vyxal_lists=vl, dict_compress=False, stack=repr(ns["stack"]), error=err), n
+            if "`" in s or "\\" in s or '"' in s or "\n" in s:
+                continue
+            n += 1
+            buf = io.StringIO()
+            prog = "`" + s + "`qĖ"
+            try:
+                with contextlib.redirect_stdout(buf):
+                    execute_vyxal(prog, "eD", [])
+            except BaseException as e:  # noqa
+                return dict(string=s, program=prog, flags="eD", error=f"{type(e).__name__}: {e}"), n
+            if buf.getvalue() != s + "\n":
+                return dict(string=s, program=prog, flags="eD", printed=buf.getvalue()[:80], expected=s + "\n"), n
         for s in strings:
             text = el.quotify(s, ctx)
             for dc in (True, False, True):
